@@ -2,10 +2,8 @@ package main
 
 import (
 	"fmt"
-	"go/ast"
 	"go/token"
 	"go/types"
-
 	"strings"
 
 	"golang.org/x/tools/go/ssa"
@@ -41,218 +39,235 @@ func runC14(c *Ctx) {
 	c.readCountRule("PFB-READCOUNT", func(f *ssa.Function) bool { return f.Pkg != nil && f.Pkg.Pkg.Name() == "pfb" })
 	c.floor("PFB-READCOUNT", 1)
 
-	info := c.info("pfb")
-	fd := c.funcDecl("pfb", "pfbReader", "Read")
 	f := c.method("pfb", "pfbReader", "Read")
-	fname := c.fname(f)
 	_ = c.typeObj("pfb", "pfbReader")
-
-	// ---- state switch
-	var sw *ast.SwitchStmt
-	ast.Inspect(fd.Body, func(n ast.Node) bool {
-		if s, ok := n.(*ast.SwitchStmt); ok && s.Tag != nil && sw == nil {
-			sw = s
-		}
-		return true
-	})
-	if sw == nil {
-		c.fail("PFB-STATES", fname, "state switch", fd.Pos(), "no switch over the decoder state")
-		return
-	}
-	labels := map[int64]*ast.CaseClause{}
-	for _, cc := range sw.Body.List {
-		cl := cc.(*ast.CaseClause)
-		for _, e := range cl.List {
-			if v, ok := constIntOf(info, e); ok {
-				labels[v] = cl
-			}
-		}
-	}
 	c.pfbTables()
+	c.pfbReadRules()
 
-	// ---- read errors returned unconditionally in the text and binary states; binary uses ReadFull
-	nRead := 0
-	eachInstr(f, func(ins ssa.Instruction) {
-		call, ok := ins.(*ssa.Call)
-		if !ok {
-			return
-		}
-		isRead := call.Common().IsInvoke() && call.Common().Method.Name() == "Read"
-		isFull := false
-		if sc := call.Common().StaticCallee(); sc != nil && calleeName(sc) == "io.ReadFull" {
-			isFull = true
-		}
-		if !isRead && !isFull {
-			return
-		}
-		// the header read (into the 6-byte array) has its own tolerated case
-		if isFull {
-			if sl, ok := call.Common().Args[1].(*ssa.Slice); ok {
-				if p, ok := sl.X.Type().Underlying().(*types.Pointer); ok {
-					if _, isArr := p.Elem().Underlying().(*types.Array); isArr {
-						c.headerShortRead(f, call, fname)
-						return
-					}
-				}
-			}
-		}
-		nRead++
-		var e ssa.Value
-		for _, r := range *call.Referrers() {
-			if ex, ok := r.(*ssa.Extract); ok && ex.Index == 1 {
-				e = ex
-			}
-		}
-		okRet := false
-		if e != nil {
-			for _, r := range *e.Referrers() {
-				bo, ok := r.(*ssa.BinOp)
-				if !ok || bo.Op != token.NEQ || !isNilConst(bo.Y) {
-					continue
-				}
-				for _, rr := range *bo.Referrers() {
-					if ifi, ok := rr.(*ssa.If); ok {
-						tb := ifi.Block().Succs[0]
-						if ret, ok := tb.Instrs[len(tb.Instrs)-1].(*ssa.Return); ok {
-							for _, v := range retValues(ret, 1) {
-								if v == e {
-									okRet = true
-								}
-							}
-						}
-					}
-				}
-			}
-		}
-		what := "text"
-		if isFull {
-			what = "binary"
-		}
-		c.check(okRet, "PFB-READERR", fname, "a read error in a "+what+" segment is returned as it is, whatever it is", call.Pos(), "if err != nil { return n, err }", "in a "+what+" segment the read error is filtered before being returned: a truncated segment (EOF) would not be reported (or the decoder would spin on it)")
-	})
-	c.check(nRead == 2, "PFB-READERR", fname, "one read per data state", fd.Pos(), fmt.Sprint(nRead), fmt.Sprintf("expected one read in the text state and one in the binary state, found %d", nRead))
-	// binary state uses ReadFull: the case labelled 2
-	if cl := labels[2]; cl != nil {
-		t := nodeString(c, cl)
-		c.check(strings.Contains(t, "io.ReadFull("), "PFB-READERR", fname, "binary segments are read with io.ReadFull (a short segment is an error)", cl.Pos(), "", "binary segment data is not read with io.ReadFull")
-	}
-	// leftover state has no read
-	if cl := labels[-1]; cl != nil {
-		hasRead := false
-		ast.Inspect(cl, func(n ast.Node) bool {
-			if call, ok := n.(*ast.CallExpr); ok {
-				s := types.ExprString(call.Fun)
-				if strings.Contains(s, "Read") {
-					hasRead = true
-				}
-			}
-			return true
-		})
-		c.check(!hasRead, "PFB-LEFTOVER", fname, "the pending nibble is emitted before any new input is read", cl.Pos(), "no read in the leftover state", "the leftover-nibble state reads input before emitting the pending digit")
-	}
-
-	// ---- nibble encoder
-	{
-		hfd := c.funcDecl("pfb", "", "hexEncode")
-		bad := ""
-		for v := int64(0); v < 16; v++ {
-			vals, err := classifyFunc(info, hfd, v)
-			want := int64("0123456789abcdef"[v])
-			if err != nil || len(vals) != 1 || vals[0].i != want {
-				bad = fmt.Sprintf("nibble %d → %v (%v), expected %q", v, vals, err, rune(want))
-			}
-		}
-		c.check(bad == "", "PFB-HEX", "pfb.hexEncode", "nibbles 0..15 → lower-case hexadecimal digits", hfd.Pos(), "16 values evaluated", "hex encoder: "+bad)
-	}
-	// ---- in-place expansion
-	c.pfbExpandRule()
+	// ---- in-place expansion, and the nibble encoder(s) it uses
+	c.pfbHexRule(c.pfbExpandRule())
 
 	// ---- buffer filling: nil error only after the loop
-	{
-		var mainLoop *ast.ForStmt
-		for _, st := range fd.Body.List {
-			if fl, ok := st.(*ast.ForStmt); ok {
-				mainLoop = fl
+	c.pfbFillRule(f)
+}
+
+// pfbReadRules: PFB-READERR and PFB-LEFTOVER, decided on one evaluated iteration of the main
+// loop per state (rules_c14b.go).  What is read in which state, and what happens to the error
+// of a read, does not depend on how the states are told apart (switch, if chain, helpers).
+func (c *Ctx) pfbReadRules() {
+	fn := c.method("pfb", "pfbReader", "Read")
+	fname := c.fname(fn)
+	H := loopHeader(fn)
+	if H == nil {
+		return // reported by PFB-STATES
+	}
+	tailF := c.fld("pfb.tail")
+	reads := func(it pfbIter) (plain, full int, pos token.Pos) {
+		pos = fn.Pos()
+		for _, ef := range it.effects {
+			switch ef.what {
+			case "read":
+				plain++
+				pos = ef.ins.Pos()
+			case "readfull":
+				full++
+				pos = ef.ins.Pos()
 			}
 		}
-		okFill := mainLoop != nil
-		why := "main loop not found"
-		if mainLoop != nil {
-			why = ""
-			if be, ok := mainLoop.Cond.(*ast.BinaryExpr); !ok || be.Op != token.GTR || !strings.HasPrefix(types.ExprString(be.X), "len(") {
-				okFill, why = false, "the main loop does not run while the caller's buffer has room (len(b) > 0)"
-			}
-			ast.Inspect(mainLoop, func(n ast.Node) bool {
-				if r, ok := n.(*ast.ReturnStmt); ok && len(r.Results) == 2 {
-					if id, ok := r.Results[1].(*ast.Ident); ok && id.Name == "nil" {
-						okFill, why = false, "Read returns a nil error from inside the loop at "+c.pos(r.Pos())+", i.e. before the caller's buffer is full"
+		return
+	}
+	// data states: one read each, binary with io.ReadFull, the error returned as it is
+	nRead := 0
+	for _, st := range []struct {
+		state int64
+		what  string
+	}{{1, "text"}, {2, "binary"}} {
+		// every kind of error, in both orderings of the room in the caller's buffer and the rest
+		// of the segment
+		okRet := true
+		var it pfbIter
+		for _, e := range []string{"readerr", "EOF", "ErrUnexpectedEOF"} {
+			for _, r := range []int{-1, 1} {
+				x := c.pfbIterationOpt(fn, H, st.state, nil, r, pfbOpt{hdrK: -1, readErr: e})
+				if !(len(x.ret) == 2 && x.ret[1].k == svSym && x.ret[1].s == e) {
+					okRet = false
+					if it.why == "" {
+						it.why = "read failing with " + e + ": outcome " + fmt.Sprint(x.ret) + " " + x.why
 					}
 				}
-				return true
-			})
-			last := fd.Body.List[len(fd.Body.List)-1]
-			if r, ok := last.(*ast.ReturnStmt); !ok || len(r.Results) != 2 || types.ExprString(r.Results[1]) != "nil" {
-				okFill, why = false, "the function does not end with `return n, nil` after the loop"
+				if e == "readerr" && r == -1 {
+					why := it.why
+					it = x
+					it.why = why
+				}
 			}
 		}
-		c.check(okFill, "PFB-FILL", fname, "a nil error is returned only with the caller's buffer full", fd.Pos(), "the only `return n, nil` follows the `for len(b) > 0` loop", "buffer filling: "+why)
+		plain, full, pos := reads(it)
+		nRead += plain + full
+		why := "in a " + st.what + " segment the read error is filtered before being returned: a truncated segment (EOF) would not be reported (or the decoder would spin on it)"
+		if it.why != "" {
+			why += " (" + it.why + ")"
+		}
+		c.check(okRet && plain+full == 1, "PFB-READERR", fname, "a read error in a "+st.what+" segment is returned as it is, whatever it is", pos, "one iteration evaluated with a failing read: the error is the result", why)
+		if st.state == 2 {
+			c.check(full == 1 && plain == 0, "PFB-READERR", fname, "binary segments are read with io.ReadFull (a short segment is an error)", pos, "", "binary segment data is not read with io.ReadFull")
+		}
+	}
+	c.check(nRead == 2, "PFB-READERR", fname, "one read per data state", fn.Pos(), fmt.Sprint(nRead), fmt.Sprintf("expected one read in the text state and one in the binary state, found %d", nRead))
+
+	// the leftover state: the pending digit goes to the first free byte, nothing is read
+	{
+		it := c.pfbIteration(fn, H, -1, nil, 2)
+		plain, full, _ := reads(it)
+		emitted := false
+		for _, ef := range it.effects {
+			if ef.what == "store" && ef.addr == "b[0]" && ef.args[0].String() == "tail" {
+				emitted = true
+			}
+		}
+		_ = tailF
+		why := "the leftover-nibble state reads input before emitting the pending digit"
+		if plain+full == 0 {
+			why = "the leftover-nibble state does not put the pending digit into the first free byte of the caller's buffer " + it.why
+		}
+		c.check(plain+full == 0 && emitted, "PFB-LEFTOVER", fname, "the pending nibble is emitted before any new input is read", fn.Pos(), "no read in the leftover state", why)
+	}
+
+	// the header read: every short read is an error, except the two-byte end marker
+	{
+		type cell struct {
+			k      int
+			b0, b1 int64
+			err    string
+		}
+		var bad []string
+		hpos := fn.Pos()
+		for _, cl := range []cell{
+			{0, 0, 0, "EOF"}, {1, 0x80, 0, "ErrUnexpectedEOF"}, {2, 0x80, 3, "ErrUnexpectedEOF"}, {5, 0x80, 3, "ErrUnexpectedEOF"},
+			{2, 0x80, 1, "ErrUnexpectedEOF"}, {3, 0x80, 2, "ErrUnexpectedEOF"}, {2, 0, 3, "ErrUnexpectedEOF"}, {5, 0x80, 1, "ErrUnexpectedEOF"},
+			{2, 0x80, 3, "readerr"}, {0, 0, 0, "readerr"},
+		} {
+			hdr := map[int]int64{0: cl.b0, 1: cl.b1, 2: 0, 3: 0, 4: 0, 5: 0}
+			it := c.pfbIterationOpt(fn, H, 0, hdr, 2, pfbOpt{hdrK: cl.k, hdrErr: cl.err})
+			_, _, p := reads(it)
+			hpos = p
+			tolerated := cl.k >= 2 && cl.b0 == 0x80 && cl.b1 == 3 && cl.err == "ErrUnexpectedEOF"
+			desc := fmt.Sprintf("a header read of %d byte(s) (% x) failing with %s", cl.k, []byte{byte(cl.b0), byte(cl.b1)}[:min(cl.k, 2)], cl.err)
+			switch {
+			case tolerated:
+				st := sv{}
+				for _, ef := range it.effects {
+					if ef.what == "store" && strings.HasSuffix(ef.addr, "."+c.fld("pfb.state")) {
+						st = ef.args[0]
+					}
+				}
+				if !it.back || st.k != svInt || st.i != 3 {
+					bad = append(bad, desc+" is the end marker, but the decoder does not go to its final state ("+fmt.Sprint(it.ret)+" "+it.why+")")
+				}
+			default:
+				if len(it.ret) != 2 || it.ret[1].k != svSym || it.ret[1].s != cl.err {
+					bad = append(bad, desc+" is not reported with that error (outcome: "+fmt.Sprint(it.ret)+" "+it.why+")")
+				}
+			}
+		}
+		c.check(len(bad) == 0, "PFB-READERR", fname, "the only tolerated short header is the two-byte end marker", hpos, "10 combinations of bytes delivered, marker, type and error evaluated", "header read: "+joinMax(bad, 2))
 	}
 }
 
-// headerShortRead: the only tolerated short header read is the two-byte end marker.
-func (c *Ctx) headerShortRead(f *ssa.Function, call *ssa.Call, fname string) {
-	var e ssa.Value
-	for _, r := range *call.Referrers() {
-		if ex, ok := r.(*ssa.Extract); ok && ex.Index == 1 {
-			e = ex
-		}
-	}
-	if e == nil {
-		c.fail("PFB-READERR", fname, "header read error", call.Pos(), "the error of the header read is ignored")
-		return
-	}
-	// every comparison of e: with nil (return) or ErrUnexpectedEOF (tolerated only together with type byte 3)
-	okTol := true
+// pfbFillRule: PFB-FILL.  Read returns a nil error only when its main loop has ended because the
+// caller's buffer is full; every return from inside the loop carries an error that is known not
+// to be nil (a sentinel, or a value tested against nil on the way).
+func (c *Ctx) pfbFillRule(fn *ssa.Function) {
+	fname := c.fname(fn)
+	H := loopHeader(fn)
 	why := ""
-	for _, r := range *e.Referrers() {
-		bo, ok := r.(*ssa.BinOp)
-		if !ok {
-			continue
-		}
-		other := bo.Y
-		if bo.Y == e {
-			other = bo.X
-		}
-		if isNilConst(other) {
-			continue
-		}
-		g := globalLoad(other)
-		if g == nil || g.Name() != "ErrUnexpectedEOF" || bo.Op != token.EQL {
-			okTol, why = false, "the header read error is compared with something other than nil / io.ErrUnexpectedEOF"
-			continue
-		}
-		// dominated by buf[1] == 3 and buf[0] == 0x80
-		has3, has80 := false, false
-		for _, cd := range domConds(bo.Block()) {
-			if m, ok := asCmp(cd); ok && m.op == token.EQL {
-				if k, isC := constInt(m.y); isC {
-					if ld, ok := m.x.(*ssa.UnOp); ok {
-						if ix, ok := ld.X.(*ssa.IndexAddr); ok {
-							idx, _ := constInt(ix.Index)
-							if idx == 1 && k == 3 {
-								has3 = true
+	var exit *ssa.BasicBlock
+	if H == nil {
+		why = "main loop not found"
+	} else {
+		// the loop runs while the caller's buffer has room
+		ifi, _ := H.Instrs[len(H.Instrs)-1].(*ssa.If)
+		okCond := false
+		if ifi != nil {
+			if m, ok := asCmp(cond{v: ifi.Cond, truth: true}); ok {
+				x, y, op := m.x, m.y, m.op
+				if k, isC := constInt(x); isC && k == 0 {
+					x, y, op = y, x, swapOp(op)
+				}
+				if k, isC := constInt(y); isC && k == 0 && (op == token.GTR || op == token.NEQ) {
+					if call, ok := x.(*ssa.Call); ok {
+						if b, ok := call.Call.Value.(*ssa.Builtin); ok && b.Name() == "len" {
+							if _, isSlice := call.Call.Args[0].Type().Underlying().(*types.Slice); isSlice {
+								okCond = true
+								exit = H.Succs[1]
 							}
-							if idx == 0 && k == 0x80 {
-								has80 = true
-							}
+						}
+					}
+				}
+				if k, isC := constInt(y); isC && ((k == 0 && (op == token.LEQ || op == token.EQL)) || (k == 1 && op == token.LSS)) {
+					if call, ok := x.(*ssa.Call); ok {
+						if b, ok := call.Call.Value.(*ssa.Builtin); ok && b.Name() == "len" {
+							okCond = true
+							exit = H.Succs[0]
 						}
 					}
 				}
 			}
 		}
-		if !has3 || !has80 {
-			okTol, why = false, "a short header is tolerated although it is not the end marker 0x80 0x03"
+		if !okCond {
+			why = "the main loop does not run while the caller's buffer has room (len(b) > 0)"
 		}
 	}
-	c.check(okTol, "PFB-READERR", fname, "the only tolerated short header is the two-byte end marker", call.Pos(), "k >= 2 && buf[0] == 0x80 && buf[1] == 3 && err == io.ErrUnexpectedEOF", "header read: "+why)
+	nNil := 0
+	if why == "" {
+		for _, r := range returns(fn) {
+			if len(r.Results) != 2 {
+				continue
+			}
+			afterLoop := exit != nil && exit.Dominates(r.Block()) && len(exit.Preds) == 1
+			for _, v := range retValues(r, 1) {
+				if isNilConst(v) {
+					nNil++
+					if !afterLoop {
+						why = "Read returns a nil error from inside the loop at " + c.pos(r.Pos()) + ", i.e. before the caller's buffer is full"
+					}
+					continue
+				}
+				if afterLoop {
+					continue
+				}
+				if !c.knownNonNilError(v, r.Block()) {
+					why = "Read returns from inside the loop at " + c.pos(r.Pos()) + " with an error value that may be nil, i.e. possibly without an error and before the caller's buffer is full"
+				}
+			}
+		}
+		if why == "" && nNil == 0 {
+			why = "the function does not end with `return n, nil` after the loop"
+		}
+	}
+	c.check(why == "", "PFB-FILL", fname, "a nil error is returned only with the caller's buffer full", fn.Pos(), "the only return of a nil error follows the exit of the `for len(b) > 0` loop", "buffer filling: "+why)
+}
+
+// knownNonNilError: v is a sentinel (package-level error variable), a freshly made error, or a
+// value that a dominating condition has compared unequal to nil.
+func (c *Ctx) knownNonNilError(v ssa.Value, at *ssa.BasicBlock) bool {
+	if globalLoad(v) != nil {
+		return true
+	}
+	switch x := origin(v).(type) {
+	case *ssa.MakeInterface:
+		return true
+	case *ssa.Call:
+		if n := callName(x); n == "errors.New" || n == "fmt.Errorf" {
+			return true
+		}
+	}
+	for _, cd := range domConds(at) {
+		if m, ok := asCmp(cd); ok && m.op == token.NEQ {
+			if (sameValue(m.x, v) && isNilConst(m.y)) || (sameValue(m.y, v) && isNilConst(m.x)) {
+				return true
+			}
+		}
+	}
+	return false
 }
